@@ -53,6 +53,17 @@ def run(c, owner):
 def _record(c):
     tr = c.path("system.idx")
     res = c.path("record-system.ndjson")
-    out, dt = vlib.vdrive(["poll", "record-system", "--out", tr, "--res", res, "--seed", c.seed, "--tier", c.tier], timeout=3000)
+    try:
+        out, dt = vlib.vdrive(["poll", "record-system", "--out", tr, "--res", res, "--seed", c.seed, "--tier", c.tier], timeout=3000,
+                              watchdog=420 if c.tier == "quick" else 1500)
+    except vlib.HangError as h:
+        # a poller that never returns keeps a composition session alive until the watchdog: a hang like any other
+        c.hang("poll", h)
+        open(tr, "w").close()
+        return tr, 0
+    except vlib.ToolError as t:
+        c.after_violation("poll", t)
+        open(tr, "w").close()
+        return tr, 0
     c.absorb(res, "record system", dt, {"module": "poll", "mode": "record-system"})
     return tr, 0
